@@ -105,12 +105,12 @@ Section Generic.
   Proof. intros Hl Ht Hd. unfold entry_num. rewrite <- Hl, <- Ht, Hd. reflexivity. Qed.
 
   Lemma entry_geo_repr_indep e rust p0 dim q1 q2 w1 w2 args :
-    dlen q1 = dlen q2 -> (forall d, denote_points d q1 = denote_points d q2) ->
+    dlen q1 = dlen q2 -> dtype q1 = dtype q2 -> (forall d, denote_points d q1 = denote_points d q2) ->
     dlen w1 = dlen w2 -> dtype w1 = dtype w2 ->
     denote_scalars (numty_for (ce_w e) (dtype w1)) w1 = denote_scalars (numty_for (ce_w e) (dtype w1)) w2 ->
     entry_geo arms crash e rust p0 dim q1 w1 args = entry_geo arms crash e rust p0 dim q2 w2 args.
   Proof.
-    intros Hlq Hq Hl Ht Hd. unfold entry_geo. rewrite <- Hlq, <- Hl, <- Ht, Hd.
+    intros Hlq Htq Hq Hl Ht Hd. unfold entry_geo. rewrite <- Hlq, <- Htq, <- Hl, <- Ht, Hd.
     destruct (ce_dim e) as [|d|ds default].
     - reflexivity.
     - rewrite (Hq d). reflexivity.
@@ -529,30 +529,43 @@ Lemma repr_indep_ckk rust p0 w1 w2 k :
 Proof.
   intros Hl Ht Hd. apply entry_num_repr_indep; assumption.
 Qed.
+(* rcb / rib: the points' Type tag plays no role at all (it is never read) *)
+Lemma geo_repr_indep alg rust p0 dim q1 q2 w1 w2 iter tol :
+  dlen q1 = dlen q2 -> (forall d, denote_points d q1 = denote_points d q2) ->
+  dlen w1 = dlen w2 -> dtype w1 = dtype w2 ->
+  denote_scalars (tag_numty (dtype w1)) w1 = denote_scalars (tag_numty (dtype w1)) w2 ->
+  entry_geo ffi_arms ffi_crash (geo_entry alg) rust p0 dim q1 w1 [iter; tol]
+  = entry_geo ffi_arms ffi_crash (geo_entry alg) rust p0 dim q2 w2 [iter; tol].
+Proof.
+  intros Hlq Hq Hl Ht Hd. unfold entry_geo, with_params, pre_then, geo_entry.
+  cbn [List.length ce_arity Nat.eqb ce_params build_params map sequence nth_opt option_map conv_param
+       ce_pre run_pre pre_fails px_len_mismatch ce_count_points ce_dim ce_guarded ce_w].
+  rewrite <- Hlq, <- Hl, <- Ht, (Hq (N.to_nat dim)).
+  assert (Hn : numty_for by_tag (dtype w1) = tag_numty (dtype w1)) by (destruct (dtype w1); reflexivity).
+  rewrite Hn, Hd. reflexivity.
+Qed.
 Lemma repr_indep_rcb rust p0 dim q1 q2 w1 w2 iter tol :
   dlen q1 = dlen q2 -> (forall d, denote_points d q1 = denote_points d q2) ->
   dlen w1 = dlen w2 -> dtype w1 = dtype w2 ->
   denote_scalars (tag_numty (dtype w1)) w1 = denote_scalars (tag_numty (dtype w1)) w2 ->
   coupe_rcb rust p0 dim q1 w1 iter tol = coupe_rcb rust p0 dim q2 w2 iter tol.
-Proof.
-  intros Hlq Hq Hl Ht Hd. apply entry_geo_repr_indep; assumption.
-Qed.
+Proof. unfold coupe_rcb. rewrite ffi_rcb_eq. apply geo_repr_indep. Qed.
 Lemma repr_indep_rib rust p0 dim q1 q2 w1 w2 iter tol :
   dlen q1 = dlen q2 -> (forall d, denote_points d q1 = denote_points d q2) ->
   dlen w1 = dlen w2 -> dtype w1 = dtype w2 ->
   denote_scalars (tag_numty (dtype w1)) w1 = denote_scalars (tag_numty (dtype w1)) w2 ->
   coupe_rib rust p0 dim q1 w1 iter tol = coupe_rib rust p0 dim q2 w2 iter tol.
-Proof.
-  intros Hlq Hq Hl Ht Hd. apply entry_geo_repr_indep; assumption.
-Qed.
+Proof. unfold coupe_rib. rewrite ffi_rib_eq. apply geo_repr_indep. Qed.
 Lemma repr_indep_hilbert rust p0 q1 q2 w1 w2 k o :
   dlen q1 = dlen q2 -> denote_points 2 q1 = denote_points 2 q2 ->
   dlen w1 = dlen w2 -> dtype w1 = dtype w2 ->
   denote_scalars F64 w1 = denote_scalars F64 w2 ->
   coupe_hilbert rust p0 q1 w1 k o = coupe_hilbert rust p0 q2 w2 k o.
 Proof.
-  intros Hlq Hq Hl Ht Hd. unfold coupe_hilbert, entry_geo. rewrite ffi_hilbert_eq.
-  cbn [ce_count_points ce_dim ce_w numty_for]. rewrite <- Hlq, <- Hl, <- Ht, Hd, Hq. reflexivity.
+  intros Hlq Hq Hl Ht Hd. unfold coupe_hilbert, entry_geo, with_params, pre_then. rewrite ffi_hilbert_eq.
+  cbn [List.length ce_arity Nat.eqb ce_params build_params map sequence nth_opt option_map conv_param
+       ce_pre run_pre pre_fails px_len_mismatch px_weights_not_double ce_count_points ce_dim ce_guarded ce_w numty_for].
+  rewrite <- Hlq, <- Hl, <- Ht, Hd, Hq. reflexivity.
 Qed.
 Lemma repr_indep_fm rust p0 adj w1 w2 a b c d :
   dlen w1 = dlen w2 -> dtype w1 = dtype w2 ->
